@@ -300,7 +300,9 @@ func (st *ccState) oracleRouting(v *vio) {
 					// nothing about transmissions; this is C12's clause, sampled here under schedules
 					// the exact-timing C12 scenario does not have.)
 					if tx.seq > m.doneSeq && tx.t > m.doneT && !st.cfg.stall {
-						v.add("R4-tx-after-accept", "call %d: transmission at #%d after the matcher accepted at #%d", c.id, tx.seq, m.seq)
+						// C12's clause, not C10's: a change that breaks only it must not be reported
+						// against C10. Counted, not judged, here (S-tx-after-accept judges it for C12).
+						st.s.Probe("transmission-after-acceptance (C12's clause, judged there)")
 					}
 				}
 				if !m.isNil {
@@ -533,6 +535,9 @@ func (st *ccState) oracleRefusal(v *vio) {
 			if a == b || a.spec.xid != b.spec.xid {
 				continue
 			}
+			if st.cfg.mode != modeRouting {
+				break // "refused rather than sharing" is C10's clause; C11 only needs T5 (no spurious refusal)
+			}
 			for _, s := range st.provenStretches(a) {
 				if b.invSeq > s.fromSeq && b.retSeq < s.toSeq && b.retT < s.toT {
 					v.add("R5-shared", "call %d (xid %x, #%d..#%d) ran entirely while call %d was registered with the same id (#%d..#%d, timer at %v) but was not refused: err=%v, %d transmission(s), %d hand-over(s)",
@@ -639,14 +644,18 @@ func (st *ccState) oracleLiveness(v *vio) {
 		if b := st.bound(c); life > b {
 			v.add("T1-bound", "call %d (T=%v tries=%d): returned after %v, later than the bound %v (err=%v)", c.id, cfg.T, cfg.tries, life, b, c.err)
 		}
-		// write error: returns at once
+		// A failed write: the statements say nothing about what a call does when the socket
+		// refuses its datagram. The unchanged tree ends the call at once with an error; a client
+		// that treats it as a lost datagram and waits out the try is equally within C11 (an
+		// earlier rule T1-write-error demanded the former). Either way the call obeys every
+		// other rule: the bound, the context, Close, and an error only for a reason the history
+		// contains (checkErrors).
 		for _, tx := range c.txs {
 			if tx.failed {
-				if c.err == nil && c.retT == tx.t && st.acceptableBy(c, tx.t) != nil {
-					continue // tie: an acceptable response was there at the instant the write failed
-				}
-				if c.retT != tx.t || c.err == nil {
-					v.add("T1-write-error", "call %d: WriteTo failed at t=%v but the call returned at t=%v with err=%v", c.id, tx.t, c.retT, c.err)
+				if c.err != nil && c.retT == tx.t {
+					st.s.Probe("write-failure-ended-the-call-at-once")
+				} else {
+					st.s.Probe("write-failure-tolerated-by-the-call")
 				}
 			}
 		}
@@ -737,7 +746,9 @@ func (st *ccState) oracleLiveness(v *vio) {
 			continue
 		}
 		if exact && !gated && c.retT != c.invT {
-			v.add("T6-close-slow", "Close called at t=%v returned at t=%v", c.invT, c.retT)
+			// "Close always ... returns": no instant is stated. A Close that makes calls wait is
+			// reported on the calls (T3-late), one that never returns by the deadlock rule.
+			st.s.Probe("close-took-time (not judged)")
 		}
 		overlapping := false
 		for j := range st.closeCalls {
